@@ -548,12 +548,10 @@ class Interp:
                 r = a * b
             elif op == "/":
                 if b == 0.0:
-                    if a != a or a == 0.0:
-                        r = math.nan
-                    else:
-                        r = math.copysign(math.inf, a) * math.copysign(1.0, b)
-                else:
-                    r = a / b
+                    # IEEE defines it, C does not, and ppci's executors disagree:
+                    # outside the defined semantics (lazy poison)
+                    return Poison("float division by zero")
+                r = a / b
             else:
                 raise Undef("float operator %s" % op)
         except OverflowError:
